@@ -6,6 +6,7 @@ CONSTANTS
   L = 7
   Dim = 1
   Periodic = FALSE
+  OpenAxes = {}
   Radii = {1, 2}
   MaxN = 4
   M <- Neg1
